@@ -15,6 +15,8 @@ def templates(tier, seed):
                 ts.append(Template(f"element_wise/{pred}/ina={int(ina)}/N={N}", t_opt, ("element_wise", N, dict(pred=pred, ina=ina))))
             ts.append(Template(f"n_failure_cases/{pred}/N={N}", t_opt, ("n_failure_cases", N, dict(pred=pred))))
             ts.append(Template(f"raise_warning/{pred}/N={N}", t_opt, ("raise_warning", N, dict(pred=pred))))
+            ts.append(Template(f"raise_warning_scalar/{pred}/N={N}", t_opt, ("raise_warning", N, dict(pred=pred, scalar=True))))
+            ts.append(Template(f"raise_warning_scalar_lazy/{pred}/N={N}", t_opt, ("raise_warning", N, dict(pred=pred, scalar=True, lazy=True))))
             ts.append(Template(f"ignore_na_field/{pred}/N={N}", t_opt, ("ignore_na_field", N, dict(pred=pred))))
         ts.append(Template(f"alias/N={N}", t_opt, ("alias", N, {})))
         for groups in (None, ["x"], ["x", "y"]):
